@@ -50,9 +50,20 @@ def messages(remote_as=65002):
         ('update_ok', frame(2, UPDATE_OK)),
         ('update_bad', frame(2, UPDATE_BAD)),
         ('update_garbage', frame(2, b'\x00')),
+        # UPDATEs without path attributes: End-of-RIB, withdrawals only
+        ('update_eor', frame(2, b'\x00\x00\x00\x00')),
+        ('update_withdraw', frame(2, b'\x00\x04\x18\x0a\x0a\x0a\x00\x00')),
         ('update_raise', frame(2, b'\x00\x10\x00\x00')),
         ('route_refresh_long', frame(5, b'\x00\x01\x00\x01\x00')),
         ('notif_version', frame(3, b'\x02\x01')),
+        # every other RFC error code (and one that is not assigned), with and without data
+        ('notif_hdr', frame(3, b'\x01\x01')),
+        ('notif_upd', frame(3, b'\x03\x01\x00')),
+        ('notif_hold', frame(3, b'\x04\x00')),
+        ('notif_fsm', frame(3, b'\x05\x00')),
+        ('notif_cease_data', frame(3, b'\x06\x04\x08shutdown')),
+        ('notif_unassigned', frame(3, b'\x07\x00')),
+        ('notif_open_other', frame(3, b'\x02\x06')),
         ('notif_cease', frame(3, b'\x06\x02')),
         ('notif_short', frame(3, b'\x06')),
         ('route_refresh', frame(5, b'\x00\x01\x00\x01')),
